@@ -416,13 +416,31 @@ func (h *heap) addDeep(f tengo.Object, origin string, isRoot bool, preMut, preAl
 		return h.deep[f]
 	}
 	r := &rec{obj: f, deep: true, prot: true, origin: origin, isRoot: isRoot}
+	// containers reachable from f WITHOUT passing through an error value:
+	// freeze converts every one of them, so a mutable container among them is
+	// never a legitimate alias (freeze results are taken to be fresh). Only a
+	// mutable container reachable solely through error payloads (returned as-is
+	// by freeze) can be a pre-existing user-visible alias.
+	outsideErr := map[tengo.Object]bool{}
+	var noErr func(o tengo.Object)
+	noErr = func(o tengo.Object) {
+		if o == nil || !isContainer(o) || outsideErr[o] {
+			return
+		}
+		if _, isErr := o.(*tengo.Error); isErr {
+			return
+		}
+		outsideErr[o] = true
+		each(o, func(_ string, c tengo.Object) { noErr(c) })
+	}
+	noErr(f)
 	walk([]tengo.Object{f}, func(c tengo.Object) {
 		if !r.prot {
 			return
 		}
-		if isMutableContainer(c) && preMut[c] {
+		if isMutableContainer(c) && preMut[c] && !outsideErr[c] {
 			r.prot = false
-			r.why = "a mutable container reachable from it was already reachable before freeze"
+			r.why = "a mutable container inside an error value reachable from it was already reachable before freeze"
 		}
 		if isImmutableContainer(c) && preAll[c] {
 			if s := h.shallow[c]; s != nil && !s.prot {
@@ -472,6 +490,10 @@ func litClass(lit string) string {
 		return "array-of-error"
 	case "map":
 		return "map"
+	case "shared-imm-arr":
+		return "array-shared-immutable-child"
+	case "shared-imm-map":
+		return "map-shared-immutable-child"
 	}
 	return lit
 }
